@@ -65,7 +65,7 @@ def run(R):
         for _ in range(2500 if quick else 40000):
             a, b, ctx, hs = valid_case(rng, 10, allow_nonl=True)
             a = [(c, t) for c, t in a if c != b"\xff\x00z"]; b = [(c, t) for c, t in b if c != b"\xff\x00z"]
-            if a == b or any(t == "C" for _, t in a + b):
+            if a == b or any(t == "C" or c.endswith(b"\r") for c, t in a + b):   # text diffs can not tell "a\r"+LF from "a"+CRLF
                 continue
             hs = gen.make_hunks(a, b, ctx)
             if any(h["os"] == 0 and h["oc"] == 0 and a for h in hs):
@@ -87,10 +87,11 @@ def run(R):
         if hs is None:
             R.oracle_fail(f"a diff written by a producer is not parsed ({x})", {"request": q, "observed": x}); continue
         oreqs.append(f"oracle_valid {gen.enc_lines(a)} {len(hs)} {' '.join(gen.enc_hunk(h) for h in hs)} {gen.enc_lines(b)}".replace("  ", " "))
-        ometa.append((q, x))
-    for (q, x), v in zip(ometa, R.model(oreqs)):
+        ometa.append((q, x, oreqs[-1], bool(a) and any(h["os"] == 0 and h["oc"] == 0 for h in hs)))
+    for (q, x, oq, d2), v in zip(ometa, R.model(oreqs)):
         if v != "ok":
-            R.oracle_fail(f"the hunks parsed from a producer's diff are not a valid script from A to B ({v})", {"request": q, "observed": x, "oracle": v})
+            R.oracle_fail(f"the hunks parsed from a producer's diff are not a valid script from A to B ({v})", {"request": q, "observed": x, "oracle": v, "oracle_request": oq},
+                          tag="locator.insert-at-zero-nonempty" if d2 else None)
     try:
         import driver_c01
         driver_c01.run(R)
